@@ -27,6 +27,7 @@ META = {
 META["claim"] += " " + "Also: the repository's tests re-run with a contract on parse_url."
 META["claim"] += " " + 'Round 3b: a foreign socket.setdefaulttimeout() in force while connecting with timeout None / a value; resolver answers mixing address families in every order; scheme spellings.'
 META["claim"] += " " + 'Round 4: connection failures that take a while to come back (each within the socket timeout, together beyond it); the addresses of an HTTP proxy tried in order with the configured timeout (http_proxy_timeout given as well) and options.'
+META["claim"] += " " + 'Round 5: paths beginning with / containing empty segments, dot segments, blanks, encoded slashes; user socket options that share an option number at different levels.'
 
 SCHEMES = ["ws", "wss", "http", "https", "", None, "wsx", "ftp", "WSS", "Wss", "WS"]  # None = no colon at all
 HOSTS = ["example.test", "EXAMPLE.Test", "10.1.2.3", "[2001:db8::1]", "[::1]", "user:pw@auth.test", "", "a-b.c_d.test"]
